@@ -153,9 +153,9 @@ Definition reviewed : list review := [
   (* else-branch of `firstAccum.Timestamp == lastAccum.Timestamp` (uint64 difference of different values) *)
   R "masterchef" PEnd "x/masterchef/keeper.Keeper.UpdateAmmPoolAPR" KQuo "duration" 2 RLocalGuard;
   R "masterchef" PEnd "x/masterchef/keeper.Keeper.UpdateLPRewards" KErr "assetprofiletypes.ErrAssetProfileNotFound" 1 RGovState;
-  (* `totalBlocksPerYear == 0` (Validate) or `edenDenomPrice.IsZero()`: GetEdenDenomPrice replaces a zero rate by one and
-     a zero base-currency price by 10^-decimals; the product of a positive pool rate and that price is the one case that
-     can still round to zero at 10^-18: see the note in the report (not reproduced) *)
+  (* `totalBlocksPerYear == 0` is excluded by Validate. (Before fix: 8b97a4c the same error was also returned for an Eden
+     price that rounds to zero at 10^-18, which an allow-listed pool creator could produce with one lopsided pool: found by
+     the harness fault f_lopsided; the code now allocates no Eden in such a block instead of failing it.) *)
   R "masterchef" PEnd "x/masterchef/keeper.Keeper.UpdateLPRewards" KErr "types.ErrNoInflationaryParams" 1 RParam;
   (* proxyTVL = tvl * multiplier is tested non-zero (`continue`), hence tvl is non-zero: [guard_product] *)
   R "masterchef" PEnd "x/masterchef/keeper.Keeper.UpdateLPRewards" KQuo "tvl" 1 RLocalGuard;
